@@ -8,6 +8,8 @@ import (
 	"context"
 	"fmt"
 	"io"
+	"sync"
+	"sync/atomic"
 	"time"
 
 	. "verifharness/lib"
@@ -173,4 +175,175 @@ func lateCancel(c *Ctx, im *Impl) {
 		im.Violate(fmt.Sprintf("%d of %d sessions that were hung up right after admission are still listed in Status().Connections (and routed)", len(left), tries),
 			"connection-without-session:late-cancel", rec)
 	}
+}
+
+// ---------- simultaneous same-ID handshakes through a gate ----------
+
+// gatedSess hands its first datagram out only when the gate opens: the protoReader goroutines
+// of all sessions of a round spin on the gate inside Recv and return the same handshake at the
+// same instant.
+type gatedSess struct {
+	*ScriptSess
+	gate    *int32
+	arrived *int32
+	first   []byte
+	given   int32
+}
+
+func (g *gatedSess) Recv(timeout time.Duration) ([]byte, error) {
+	if atomic.CompareAndSwapInt32(&g.given, 0, 1) {
+		atomic.AddInt32(g.arrived, 1)
+		for atomic.LoadInt32(g.gate) == 0 {
+		}
+		g.mu.Lock()
+		g.delivered++
+		g.mu.Unlock()
+		return g.first, nil
+	}
+	return g.ScriptSess.Recv(timeout)
+}
+
+// gateRace: rounds of N sessions announcing the same ID, all handshakes released at the same
+// instant.  After the round settles: at most one session is established (survivors prove it by
+// getting a packet delivered to a local service, so a merely slow rejection does not count),
+// Status().Connections lists the ID exactly once while a session is alive, and not at all after
+// the last one has ended.  Stops at the first violation.
+func gateRace(c *Ctx, im *Impl) {
+	ctx, cancel := context.WithCancel(context.Background())
+	defer cancel()
+	n := netceptor.NewWithConsts(ctx, selfID, 16384, time.Hour, time.Hour, time.Hour, 30, time.Hour)
+	n.Logger.SetOutput(io.Discard)
+	defer n.Shutdown()
+	pc, err := n.ListenPacket("probe")
+	if err != nil {
+		im.Violate("harness: "+err.Error(), "harness-error", nil)
+		return
+	}
+	var delMu sync.Mutex
+	got := map[string]bool{}
+	go func() {
+		buf := make([]byte, 4096)
+		for {
+			k, _, err := pc.ReadFrom(buf)
+			if err != nil {
+				return
+			}
+			delMu.Lock()
+			got[string(buf[:k])] = true
+			delMu.Unlock()
+		}
+	}()
+	listed := func(id string) int {
+		k := 0
+		for _, cn := range n.Status().Connections {
+			if cn.NodeID == id {
+				k++
+			}
+		}
+		return k
+	}
+	budget, maxRounds := 6*time.Second, 600
+	if c.Thorough() {
+		budget, maxRounds = 40*time.Second, 6000
+	}
+	start := time.Now()
+	rounds := 0
+	for ; rounds < maxRounds && time.Since(start) < budget; rounds++ {
+		N := 6 + rounds%3
+		id := fmt.Sprintf("twin%d", rounds)
+		var gate, arrived int32
+		ss := make([]*gatedSess, N)
+		for i := range ss {
+			ss[i] = &gatedSess{ScriptSess: NewScriptSess(), gate: &gate, arrived: &arrived, first: hsMsg(id)}
+			_ = n.AddBackend(&oneShot{ss[i]}, netceptor.BackendConnectionCost(1.0))
+		}
+		for t0 := time.Now(); atomic.LoadInt32(&arrived) < int32(N) && time.Since(t0) < 2*time.Second; {
+			time.Sleep(50 * time.Microsecond)
+		}
+		atomic.StoreInt32(&gate, 1)
+		im.Hist("gate-race-round")
+		im.Count("gate-race "+id, true)
+		open := func() []int {
+			var o []int
+			for i, s := range ss {
+				if !s.IsClosed() {
+					o = append(o, i)
+				}
+			}
+			return o
+		}
+		// settle: all but one rejected (normally within a millisecond); a slow rejection gets 500 ms
+		for t0 := time.Now(); len(open()) > 1 && time.Since(t0) < 500*time.Millisecond; {
+			time.Sleep(100 * time.Microsecond)
+		}
+		alive := open()
+		rec := map[string]interface{}{"round": rounds, "sessions": N, "announced": id, "not_closed": alive}
+		// survivors prove they are established: a packet of theirs reaches a local service
+		var est []int
+		if len(alive) > 1 {
+			for _, i := range alive {
+				marker := fmt.Sprintf("%s/%d", id, i)
+				ss[i].queue <- dataPacket(5, nameHash(id), nameHash(selfID), "c", "probe", []byte(marker))
+				ss[i].queue <- []byte{0xff}
+				ss[i].waitConsumed(3, 2*time.Second)
+				for t0 := time.Now(); time.Since(t0) < 300*time.Millisecond; {
+					delMu.Lock()
+					ok := got[marker]
+					delMu.Unlock()
+					if ok {
+						est = append(est, i)
+						break
+					}
+					if ss[i].IsClosed() {
+						break
+					}
+					time.Sleep(200 * time.Microsecond)
+				}
+			}
+			rec["established_proved_by_delivery"] = est
+			if len(est) > 1 {
+				im.Violate(fmt.Sprintf("%d of %d simultaneous sessions announcing ID %q are established at once (each got a packet delivered to a local service)", len(est), N, id),
+					"two-sessions-one-id:gate", rec)
+			}
+		} else {
+			est = alive
+		}
+		bad := len(est) > 1
+		if k := listed(id); len(open()) > 0 && k != 1 {
+			im.Violate(fmt.Sprintf("a session announcing %q is alive but Status().Connections lists the ID %d time(s)", id, k), "open-session-without-connection:gate", rec)
+			bad = true
+		}
+		// departures one by one: the entry must stay while an established session is alive
+		for k, i := range est {
+			ss[i].Hangup()
+			ss[i].waitClosed(2 * time.Second)
+			if k+1 < len(est) {
+				time.Sleep(2 * time.Millisecond)
+				if cnt := listed(id); cnt != 1 && !ss[est[k+1]].IsClosed() {
+					rec["ended"], rec["still_running"] = i, est[k+1]
+					im.Violate(fmt.Sprintf("after session %d ended, session %d is still running but Status().Connections lists %q %d time(s)", i, est[k+1], id, cnt),
+						"open-session-without-connection:gate", rec)
+					bad = true
+				}
+			}
+		}
+		for _, s := range ss {
+			s.Hangup()
+		}
+		for _, s := range ss {
+			s.waitClosed(2 * time.Second)
+		}
+		for t0 := time.Now(); listed(id) > 0 && time.Since(t0) < 500*time.Millisecond; {
+			time.Sleep(time.Millisecond)
+		}
+		if k := listed(id); k != 0 {
+			im.Violate(fmt.Sprintf("all sessions announcing %q have ended but Status().Connections still lists it", id), "connection-without-session:gate", rec)
+			bad = true
+		}
+		if bad {
+			rounds++
+			break
+		}
+	}
+	im.Extra["gate_race_rounds"] = rounds
 }
